@@ -29,7 +29,7 @@ NAMES = ["a", "ab", "b", "ba"]
 # a name listed twice counts once (what every release so far does; the scheme says "the splitter values taken in
 # alphabetical order of field name", i.e. one value per name)
 DUPLICATES = [("a", "a"), ("b", "a", "b"), ("a", "b", "a", "b"), ("ab", "a", "ab")]
-NAMES2 = [("Region", "account_id"), ("userId", "user_country"), ("B", "_c", "a"), ("ID", "id_type"), ("f10", "f9", "f_1"), ("Z", "a", "_")]
+NAMES2 = [("Region", "account_id"), ("userId", "user_country"), ("B", "_c", "a"), ("ID", "id_type"), ("f10", "f9", "f_1"), ("Z", "a", "_"), ("variant", "key")]
 
 
 def weight_vectors():
